@@ -134,9 +134,24 @@ func (m *omap) len() int {
 type omapIter struct {
 	m   *omap
 	pos int
+	rev bool // reverse insertion order (vf.MapOrder(1)): another order Go permits
 }
 
 func (it *omapIter) next() tuple {
+	if it.m != nil && it.rev {
+		for it.pos >= 0 {
+			if it.pos >= len(it.m.entries) {
+				it.pos = len(it.m.entries) - 1
+				continue
+			}
+			e := it.m.entries[it.pos]
+			it.pos--
+			if !e.dead {
+				return tuple{true, e.key, e.val}
+			}
+		}
+		return tuple{false, nil, nil}
+	}
 	if it.m != nil {
 		for it.pos < len(it.m.entries) {
 			e := it.m.entries[it.pos]
